@@ -1,6 +1,7 @@
 package signsim
 
 import (
+	"bytes"
 	"go.dedis.ch/kyber/v4"
 	"go.dedis.ch/kyber/v4/sign/cosi"
 
@@ -119,6 +120,20 @@ func runCoSi(t *core.Tape, tier string, info *core.RunInfo) *core.Violation {
 		V, Z, err := cosi.AggregateCommitments(g, Vs, masks)
 		if err != nil {
 			return viol("cosi", "cosi/aggregate-commitments", "AggregateCommitments: %v", err)
+		}
+		if t.Bool("cfg.recompute", 300) {
+			// the leader crashes after aggregating and, restarted, recomputes the aggregate from the
+			// commitments and masks it had stored (its durable state): same inputs, same aggregate
+			// (seed C09g: the first aggregation had overwritten the stored first commitment)
+			V2, Z2, err := cosi.AggregateCommitments(g, Vs, masks)
+			if err != nil {
+				return viol("cosi", "cosi/aggregate-commitments", "AggregateCommitments (recomputed): %v", err)
+			}
+			info.Fault("leader-crash-recomputes-aggregate")
+			if !V2.Equal(V) || !bytes.Equal(Z2, Z) {
+				return viol("cosi", "cosi/aggregate-not-repeatable", "AggregateCommitments over the same stored commitments gives a different aggregate the second time (%d commitments)", len(Vs))
+			}
+			V, Z = V2, Z2
 		}
 		lm, _ := cosi.NewMask(g, pubs, nil)
 		if err := lm.SetMask(Z); err != nil {
